@@ -149,13 +149,13 @@ Proof. split; [apply prev_lf_some|apply is_prev_lf_fun]. Qed.
 Definition scan_fwd (H A : Z) (c : list Z) (o : Z) : tok :=
   match next_lf c o with
   | Some p => if p - o <? A * H then Found p else ErrMaxLine
-  | None => if lenZ c - o <=? (A - 1) * H then ReachedEof (lenZ c)
+  | None => if lenZ c - o <? A * H then ReachedEof (lenZ c)
             else ErrMaxLine
   end.
 Definition scan_bwd (H A : Z) (c : list Z) (o : Z) : tok :=
   match prev_lf c o with
   | Some q => if o - q <=? A * H then Found q else ErrMaxLine
-  | None => if o <=? (A - 1) * H then ReachedEof 0 else ErrMaxLine
+  | None => if o <? A * H then ReachedEof 0 else ErrMaxLine
   end.
 
 Theorem find_token_spec H A c o :
@@ -204,7 +204,7 @@ Proof.
   unfold scan_fwd in E. destruct (next_lf c o) as [p'|] eqn:En.
   - destruct (p' - o <? A * H); [|discriminate]. inversion E; subst p'.
     apply next_lf_some; [lia|exact En].
-  - destruct (lenZ c - o <=? (A - 1) * H); discriminate.
+  - destruct (lenZ c - o <? A * H); discriminate.
 Qed.
 
 Lemma find_token_eof H A c o x :
@@ -214,7 +214,7 @@ Proof.
   intros HH HA Ho E. rewrite find_token_spec in E by assumption.
   unfold scan_fwd in E. destruct (next_lf c o) as [p'|] eqn:En.
   - destruct (p' - o <? A * H); discriminate.
-  - destruct (lenZ c - o <=? (A - 1) * H); [|discriminate].
+  - destruct (lenZ c - o <? A * H); [|discriminate].
     inversion E. split; [reflexivity|]. apply next_lf_none; [lia|exact En].
 Qed.
 
@@ -226,7 +226,7 @@ Proof.
   unfold scan_bwd in E. destruct (prev_lf c o) as [q'|] eqn:En.
   - destruct (o - q' <=? A * H); [|discriminate]. inversion E; subst q'.
     apply prev_lf_some; exact En.
-  - destruct (o <=? (A - 1) * H); discriminate.
+  - destruct (o <? A * H); discriminate.
 Qed.
 
 Lemma find_token_reverse_eof H A c o x :
@@ -236,7 +236,7 @@ Proof.
   intros HH HA Ho E. rewrite find_token_reverse_spec in E by assumption.
   unfold scan_bwd in E. destruct (prev_lf c o) as [q'|] eqn:En.
   - destruct (o - q' <=? A * H); discriminate.
-  - destruct (o <=? (A - 1) * H); [|discriminate].
+  - destruct (o <? A * H); [|discriminate].
     inversion E. split; [reflexivity|]. apply prev_lf_none; exact En.
 Qed.
 
@@ -281,11 +281,11 @@ Proof.
       replace ((q <=? lenZ c) && (0 <=? q) && (p <=? lenZ c) && (0 <=? p) &&
                (q <=? p)) with true; [reflexivity|].
       symmetry. repeat (apply andb_true_intro; split); lia.
-    + destruct (o <=? (A - 1) * H); [|reflexivity]. cbn [tok_off].
+    + destruct (o <? A * H); [|reflexivity]. cbn [tok_off].
       replace ((0 <=? lenZ c) && (0 <=? 0) && (p <=? lenZ c) && (0 <=? p) &&
                (0 <=? p)) with true; [reflexivity|].
       symmetry. repeat (apply andb_true_intro; split); lia.
-  - destruct (lenZ c - o <=? (A - 1) * H); [|reflexivity]. cbn [andb].
+  - destruct (lenZ c - o <? A * H); [|reflexivity]. cbn [andb].
     destruct (prev_lf c o) as [q|] eqn:Ep.
     + pose proof (prev_lf_some c o q Ep) as (Hq1 & Hq2 & _).
       apply lf_at_lt in Hq2.
@@ -293,7 +293,7 @@ Proof.
       replace ((q <=? lenZ c) && (0 <=? q) && (lenZ c <=? lenZ c) &&
                (0 <=? lenZ c) && (q <=? lenZ c)) with true; [reflexivity|].
       symmetry. repeat (apply andb_true_intro; split); lia.
-    + destruct (o <=? (A - 1) * H); [|reflexivity]. cbn [tok_off].
+    + destruct (o <? A * H); [|reflexivity]. cbn [tok_off].
       replace ((0 <=? lenZ c) && (0 <=? 0) && (lenZ c <=? lenZ c) &&
                (0 <=? lenZ c) && (0 <=? lenZ c)) with true; [reflexivity|].
       symmetry. repeat (apply andb_true_intro; split); lia.
@@ -353,79 +353,87 @@ Proof.
     + lia.
 Qed.
 
-(* every line no longer than (A-1)*H bytes (terminator included) is inside
-   the budget, wherever it lies *)
+(* every line of at most A*H - 1 bytes (terminator included, if any) is
+   inside the budget, wherever it lies *)
 Lemma short_line_within_budget H A c o :
   0 < H -> 0 < A -> 0 <= o <= lenZ c ->
-  line_len c o <= (A - 1) * H -> within_budget H A c o = true.
+  line_len c o <= A * H - 1 -> within_budget H A c o = true.
 Proof.
   intros HH HA Ho Hl. pose proof (line_bounds c o Ho) as Hb.
   unfold line_len, line_stop, line_start, line_end, within_budget,
     fwd_in_budget, bwd_in_budget in *.
   destruct (prev_lf c o) as [q|]; destruct (next_lf c o) as [p|];
-    apply andb_true_intro; split; nia.
+    apply andb_true_intro; split; lia.
 Qed.
 
-(* a line with a line feed on both sides may use the full A*H *)
-Lemma interior_line_within_budget H A c o q p :
+(* a line that ends with a line feed may use the full A*H, terminator
+   included *)
+Lemma terminated_line_within_budget H A c o p :
   0 < H -> 0 < A -> 0 <= o <= lenZ c ->
-  prev_lf c o = Some q -> next_lf c o = Some p ->
-  p - q <= A * H -> within_budget H A c o = true.
+  next_lf c o = Some p ->
+  line_len c o <= A * H -> within_budget H A c o = true.
 Proof.
-  intros HH HA Ho Ep En Hl.
-  pose proof (prev_lf_some c o q Ep) as (Hq1 & _).
-  pose proof (next_lf_some c o p ltac:(lia) En) as (Hp1 & _).
-  unfold within_budget, fwd_in_budget, bwd_in_budget. rewrite Ep, En.
-  apply andb_true_intro; split; lia.
+  intros HH HA Ho En Hl. pose proof (line_bounds c o Ho) as Hb.
+  unfold line_len, line_stop, line_start, line_end, within_budget,
+    fwd_in_budget, bwd_in_budget in *. rewrite En in *.
+  destruct (prev_lf c o) as [q|]; apply andb_true_intro; split; lia.
 Qed.
 
-(* ... but a first line (no line feed before it) or an unterminated last
-   line may not: the lookup raises in the last H bytes of the budget. *)
-Lemma first_line_gap H A c o :
+(* and these bounds are exact: from one end of a longer line the lookup
+   raises.  Terminated line of more than A*H bytes, looked up at its first
+   byte: *)
+Lemma long_terminated_line_raises H A c o p :
   0 < H -> 0 < A -> 0 <= o <= lenZ c ->
-  prev_lf c o = None -> (A - 1) * H < o ->
-  try_find_line H A c o None None = LineErr.
+  next_lf c o = Some p -> A * H < line_len c o ->
+  try_find_line H A c (line_start c o) None None = LineErr \/
+  try_find_line H A c p None None = LineErr.
 Proof.
-  intros HH HA Ho Ep Hgap. apply try_find_line_error_iff; try assumption.
-  unfold within_budget, bwd_in_budget. rewrite Ep.
-  replace (o <=? (A - 1) * H) with false by lia. apply andb_false_r.
+  intros HH HA Ho En Hl. pose proof (line_bounds c o Ho) as (Hs & He & _).
+  destruct (next_lf_some c o p ltac:(lia) En) as (Hop & Hlp & Hmin).
+  pose proof (lf_at_lt _ _ Hlp) as Hpb.
+  unfold line_len, line_stop in Hl. rewrite En in Hl.
+  unfold line_start in *. destruct (prev_lf c o) as [q|] eqn:Ep.
+  - (* interior line: backwards from p the line feed q is too far *)
+    right. apply try_find_line_error_iff; try assumption; [lia|].
+    destruct (prev_lf_some c o q Ep) as (Hq & Hlq & Hmax).
+    assert (Epp : prev_lf c p = Some q).
+    { apply is_prev_lf_fun. split; [lia|]. split; [exact Hlq|].
+      intros j Hj. destruct (Z_lt_le_dec j o) as [Hjo|Hjo].
+      - apply Hmax. lia.
+      - apply Hmin. lia. }
+    unfold within_budget, bwd_in_budget. rewrite Epp.
+    replace (p - q <=? A * H) with false by lia. apply andb_false_r.
+  - (* first line: backwards from p there is no line feed and p >= A*H *)
+    right. apply try_find_line_error_iff; try assumption; [lia|].
+    pose proof (prev_lf_none c o Ep) as Hnb.
+    assert (Epp : prev_lf c p = None).
+    { destruct (prev_lf c p) as [q|] eqn:E; [|reflexivity]. exfalso.
+      destruct (prev_lf_some c p q E) as (Hq & Hlq & _).
+      destruct (Z_lt_le_dec q o) as [Hjo|Hjo].
+      - apply (Hnb q Hjo Hlq).
+      - apply (Hmin q); [lia|exact Hlq]. }
+    unfold within_budget, bwd_in_budget. rewrite Epp.
+    replace (p <? A * H) with false by lia. apply andb_false_r.
 Qed.
 
-Lemma last_line_gap H A c o :
+(* unterminated last line of A*H bytes or more, looked up at its first byte:
+   the end of the file is not reached *)
+Lemma long_unterminated_line_raises H A c o :
   0 < H -> 0 < A -> 0 <= o <= lenZ c ->
-  next_lf c o = None -> (A - 1) * H < lenZ c - o ->
-  try_find_line H A c o None None = LineErr.
+  next_lf c o = None -> A * H <= line_len c o ->
+  try_find_line H A c (line_start c o) None None = LineErr.
 Proof.
-  intros HH HA Ho En Hgap. apply try_find_line_error_iff; try assumption.
-  unfold within_budget, fwd_in_budget. rewrite En.
-  replace (lenZ c - o <=? (A - 1) * H) with false by lia. reflexivity.
-Qed.
-
-(* a file without any line feed, of exactly A*H bytes - one line "within
-   the A*H limit" - looked up at its last offset: the lookup raises. *)
-Lemma no_lf_prev_none c o :
-  (forall j, ~ lf_at c j) -> prev_lf c o = None.
-Proof.
-  intros Hno. destruct (prev_lf c o) as [q|] eqn:E; [|reflexivity].
-  exfalso. destruct (prev_lf_some c o q E) as (_ & Hl & _). exact (Hno q Hl).
-Qed.
-
-Lemma no_lf_next_none c o :
-  0 <= o -> (forall j, ~ lf_at c j) -> next_lf c o = None.
-Proof.
-  intros Ho Hno. destruct (next_lf c o) as [p|] eqn:E; [|reflexivity].
-  exfalso. destruct (next_lf_some c o p Ho E) as (_ & Hl & _). exact (Hno p Hl).
-Qed.
-
-Theorem try_find_line_exact_AH_refuted H A c :
-  0 < H -> 0 < A -> (forall j, ~ lf_at c j) ->
-  (A - 1) * H < lenZ c <= A * H ->
-  line_len c (lenZ c) <= A * H /\
-  try_find_line H A c (lenZ c) None None = LineErr.
-Proof.
-  intros HH HA Hno Hlen. pose proof (lenZ_nonneg c) as Hn. split.
-  - unfold line_len, line_stop, line_start.
-    rewrite no_lf_prev_none, no_lf_next_none by (assumption || lia). lia.
-  - apply first_line_gap; try assumption; try lia.
-    apply no_lf_prev_none; assumption.
+  intros HH HA Ho En Hl. pose proof (line_bounds c o Ho) as (Hs & He & _).
+  unfold line_len, line_stop in Hl. rewrite En in Hl.
+  apply try_find_line_error_iff; try assumption; [lia|].
+  assert (Ens : next_lf c (line_start c o) = None).
+  { pose proof (next_lf_none c o ltac:(lia) En) as Hn.
+    destruct (next_lf c (line_start c o)) as [p|] eqn:E; [|reflexivity].
+    exfalso. destruct (next_lf_some c (line_start c o) p ltac:(lia) E) as (H1 & H2 & _).
+    destruct (Z_lt_le_dec p o) as [Hlt|Hge]; [|apply (Hn p Hge H2)].
+    unfold line_start in *. destruct (prev_lf c o) as [q|] eqn:Ep.
+    - destruct (prev_lf_some c o q Ep) as (_ & _ & Hm). apply (Hm p); [lia|exact H2].
+    - apply (prev_lf_none c o Ep p Hlt H2). }
+  unfold within_budget, fwd_in_budget. rewrite Ens.
+  replace (lenZ c - line_start c o <? A * H) with false by lia. reflexivity.
 Qed.
